@@ -3,7 +3,9 @@
 run the quick-style check of the property it targets for a short budget,
 expect exit 1, and undo the change straight afterwards.
 
-usage: run_mutants.py [--budget S] [--tests] [PATTERN...]
+usage: run_mutants.py [--budget S] [--tests] [--scratch] [PATTERN...]
+  --scratch   work on a private copy of /repo (/tmp/repo-mut, own build and output directories) instead of
+              /repo's working tree, so that other checks can run against /repo meanwhile
 Results are appended to /verif/mutants/results.jsonl and summarised in
 /verif/mutants/README.md."""
 import glob
@@ -16,10 +18,11 @@ import time
 
 REPO = '/repo'
 MUT = '/verif/mutants'
+ENV = dict(os.environ)
 
 
 def sh(cmd, **kw):
-    return subprocess.run(cmd, shell=True, stdout=subprocess.PIPE, stderr=subprocess.STDOUT, text=True, **kw)
+    return subprocess.run(cmd, shell=True, stdout=subprocess.PIPE, stderr=subprocess.STDOUT, text=True, env=ENV, **kw)
 
 
 # defects first seen by one property's campaign whose inputs that campaign has to
@@ -64,6 +67,12 @@ def main(argv):
             i += 2
         elif argv[i] == '--tests':
             tests = True
+            i += 1
+        elif argv[i] == '--scratch':
+            global REPO
+            sh('rm -rf /tmp/repo-mut /tmp/build-mut /tmp/out-mut; cp -a /repo /tmp/repo-mut; git -C /tmp/repo-mut checkout -q -- .; mkdir -p /tmp/out-mut')
+            REPO = '/tmp/repo-mut'
+            ENV.update(VERIF_REPO=REPO, VERIF_BUILD='/tmp/build-mut', VERIF_OUT='/tmp/out-mut')
             i += 1
         else:
             pats.append(argv[i])
